@@ -374,7 +374,7 @@ PROBE_CLASSES = [
 ]
 
 
-def gen_boundary(rng, stats, i, quick, nblocks=1, force_r=None, force_probe=None, window=48, nmodel=None, tag=None):
+def gen_boundary(rng, stats, i, quick, nblocks=1, force_r=None, force_probe=None, window=48, nmodel=None, tag=None, many_small=None):
     B, H = K["BLOCK_SIZE"], K["HEADER_MAX_SIZE"]
     lay = Layout()
     batches, expect = [], []
@@ -413,7 +413,7 @@ def gen_boundary(rng, stats, i, quick, nblocks=1, force_r=None, force_probe=None
         s = rng.choice(probe_sizes(rng, nb - lay.bw)) if force_probe is None else force_probe(nb - lay.bw)
         s = max(8, min(s, B))
         es = solve_entries(rng, s)
-        if force_probe is None and nb - lay.bw >= 28 and rng.chance(1, 3):
+        if (many_small is True and nb - lay.bw >= 28) or (many_small is None and force_probe is None and nb - lay.bw >= 28 and rng.chance(1, 3)):
             # a probe of MANY SMALL entries that does not fit: its first fragment then holds whole
             # entries, so a reader that wrongly returns a torn first fragment shows a partial batch
             # (seeded change C12-2)
@@ -688,6 +688,11 @@ def gen_cases(rng, quick, stats):
             for pc, f in enumerate(PROBE_CLASSES):
                 cases.append(gen_boundary(rng, stats, 0, quick, force_r=r, force_probe=f, nmodel=4, tag="grid_r%d_p%d" % (r, pc)))
                 bump(stats, "grid_cases")
+        # ... and a probe of many small entries (whole entries in the first fragment) for every
+        # remainder that makes the writer split
+        for r in list(range(28, 41)) + [50, 64, 80, 100, 150, 200, 400]:
+            cases.append(gen_boundary(rng, stats, 0, quick, force_r=r, nmodel=4, tag="grid_r%d_small" % r, many_small=True))
+            bump(stats, "grid_cases")
     for i in range(n_ro):
         cases.append(gen_rollover(rng, stats, i, False))
     for i in range(n_ro_big):
